@@ -18,15 +18,16 @@ type Handle struct {
 }
 
 // Go starts a harness worker.
+//go:norace
 func (e *Env) Go(name string, f func()) *Handle {
 	s := e.s
 	parent := s.self()
 	id := "x"
 	if parent != nil {
-		s.mu.Lock()
+		ilock(&s.mu)
 		id = parent.id + "." + itoa(parent.nchild)
 		parent.nchild++
-		s.mu.Unlock()
+		iunlock(&s.mu)
 	}
 	h := &Handle{done: make(chan struct{})}
 	h.w = s.spawn(id, "start:"+name, true, name, func() {
@@ -37,6 +38,7 @@ func (e *Env) Go(name string, f func()) *Handle {
 }
 
 // Join waits (really blocking, then yielding) until the workers have finished.
+//go:norace
 func (e *Env) Join(hs ...*Handle) {
 	for _, h := range hs {
 		Yield("join")
@@ -52,6 +54,7 @@ func (e *Env) Join(hs ...*Handle) {
 }
 
 // Finished reports whether the worker has returned.
+//go:norace
 func (h *Handle) Finished() bool {
 	select {
 	case <-h.done:
@@ -63,148 +66,167 @@ func (h *Handle) Finished() bool {
 
 // Quiesce parks the caller until nothing can happen any more: no worker is enabled and
 // no timer is pending. (The fake clock may have advanced arbitrarily far.)
+//go:norace
 func (e *Env) Quiesce() {
 	s := e.s
 	w := s.self()
 	if w == nil {
 		return
 	}
-	s.mu.Lock()
+	ilock(&s.mu)
 	w.within = 0
-	s.mu.Unlock()
+	iunlock(&s.mu)
 	s.park(w, "quiesce", wQuiesce, 0)
 }
 
 // QuiesceWithin parks the caller until no worker can run and nothing (no timer) makes
 // one runnable for a quiet period of d simulated time. For systems with a slow periodic
 // timer that never lets them quiesce completely.
+//go:norace
 func (e *Env) QuiesceWithin(d time.Duration) {
 	s := e.s
 	w := s.self()
 	if w == nil {
 		return
 	}
-	s.mu.Lock()
+	ilock(&s.mu)
 	w.within = d
-	s.mu.Unlock()
+	iunlock(&s.mu)
 	s.park(w, "quiesce", wQuiesce, 0)
 }
 
 // Idle parks the caller until at least d of simulated time has passed and, at that
 // moment, no other worker can run (all are blocked). Unlike Quiesce it does not require
 // that no timer is pending, so it also works with periodic timers in the system.
+//go:norace
 func (e *Env) Idle(d time.Duration) {
 	s := e.s
 	w := s.self()
 	if w == nil {
 		return
 	}
-	s.mu.Lock()
+	ilock(&s.mu)
 	w.wakeAt = time.Now().Add(d)
-	s.mu.Unlock()
+	iunlock(&s.mu)
 	s.park(w, "idle", wIdle, 0)
 }
 
 // Sleep lets d of simulated time pass for the caller.
+//go:norace
 func (e *Env) Sleep(d time.Duration) { Sleep("env.Sleep", d) }
 
 // Yield is an explicit scheduling point in harness code.
+//go:norace
 func (e *Env) Yield() { Yield("env.Yield") }
 
 // Now returns the virtual clock (no yield, no jitter).
+//go:norace
 func (e *Env) Now() time.Time { return VNow() }
 
 // Elapsed returns virtual time since the start of the run.
+//go:norace
 func (e *Env) Elapsed() time.Duration {
 	s := e.s
-	s.mu.Lock()
-	defer s.mu.Unlock()
+	ilock(&s.mu)
+	defer iunlock(&s.mu)
 	return s.vnowLocked().Sub(s.start)
 }
 
 // Start returns the virtual time at which the run started.
+//go:norace
 func (e *Env) Start() time.Time { return e.s.start }
 
 // Stamp returns a fresh, strictly increasing event stamp (global order of harness events).
+//go:norace
 func (e *Env) Stamp() uint64 {
 	s := e.s
-	s.mu.Lock()
+	ilock(&s.mu)
 	s.stamp++
 	v := s.stamp
-	s.mu.Unlock()
+	iunlock(&s.mu)
 	return v
 }
 
 // Seq returns the number of controller steps so far.
+//go:norace
 func (e *Env) Seq() uint64 {
 	s := e.s
-	s.mu.Lock()
-	defer s.mu.Unlock()
+	ilock(&s.mu)
+	defer iunlock(&s.mu)
 	return s.seq
 }
 
 // Fail records a violation (the first one wins) and aborts the run.
+//go:norace
 func (e *Env) Fail(class, format string, args ...interface{}) {
 	s := e.s
-	s.mu.Lock()
+	ilock(&s.mu)
 	if s.viol == nil {
 		s.viol = &Violation{Class: class, Detail: fmt.Sprintf(format, args...), Event: s.seq,
 			SimTime: s.vnowLocked().Sub(s.start).String()}
 	}
 	s.aborted = true
-	s.mu.Unlock()
+	iunlock(&s.mu)
 }
 
 // Failed reports whether a violation has been recorded.
+//go:norace
 func (e *Env) Failed() bool {
 	s := e.s
-	s.mu.Lock()
-	defer s.mu.Unlock()
+	ilock(&s.mu)
+	defer iunlock(&s.mu)
 	return s.viol != nil || s.aborted
 }
 
 // Infra records an infrastructure problem (never a property violation).
+//go:norace
 func (e *Env) Infra(format string, args ...interface{}) {
 	s := e.s
-	s.mu.Lock()
+	ilock(&s.mu)
 	s.infraLocked(fmt.Sprintf(format, args...))
-	s.mu.Unlock()
+	iunlock(&s.mu)
 }
 
 // Fault counts an injected fault that actually fired.
+//go:norace
 func (e *Env) Fault(kind string) { CountFault(kind) }
 
 // Probe counts a rare condition that was reached.
+//go:norace
 func (e *Env) Probe(name string) { CountProbe(name) }
 
 // CountFault counts a fired fault (callable from stubs).
+//go:norace
 func CountFault(kind string) {
 	if s := cur(); s != nil {
-		s.mu.Lock()
+		ilock(&s.mu)
 		s.faults[kind]++
-		s.mu.Unlock()
+		iunlock(&s.mu)
 	}
 }
 
 // CountProbe counts a reached rare condition (callable from stubs and adaptors).
+//go:norace
 func CountProbe(name string) {
 	if s := cur(); s != nil {
-		s.mu.Lock()
+		ilock(&s.mu)
 		s.probes[name]++
-		s.mu.Unlock()
+		iunlock(&s.mu)
 	}
 }
 
 // Enter marks the calling worker as being inside API call op (for quiescence oracles).
+//go:norace
 func (e *Env) Enter(op string) {
 	if w := e.s.self(); w != nil {
-		e.s.mu.Lock()
+		ilock(&e.s.mu)
 		w.op = op
-		e.s.mu.Unlock()
+		iunlock(&e.s.mu)
 	}
 }
 
 // Leave clears the mark set by Enter.
+//go:norace
 func (e *Env) Leave() { e.Enter("") }
 
 // WorkerInfo describes a worker at the time of a snapshot.
@@ -220,10 +242,11 @@ type WorkerInfo struct {
 }
 
 // Snapshot lists all workers.
+//go:norace
 func (e *Env) Snapshot() []WorkerInfo {
 	s := e.s
-	s.mu.Lock()
-	defer s.mu.Unlock()
+	ilock(&s.mu)
+	defer iunlock(&s.mu)
 	out := make([]WorkerInfo, 0, s.nworkers)
 	for i := 0; i < s.nworkers; i++ {
 		w := &s.workers[i]
@@ -241,36 +264,42 @@ func (e *Env) Snapshot() []WorkerInfo {
 
 // OnStep registers a function the controller runs after every step (all workers are
 // blocked while it runs; it must only touch harness state).
+//go:norace
 func (e *Env) OnStep(f func()) {
 	e.s.onStep = append(e.s.onStep, f)
 }
 
 // TimerLegacy reports the timer-channel mode of this run.
+//go:norace
 func (e *Env) TimerLegacy() bool { return e.s.cfg.TimerLegacy }
 
 // Mutex is a harness-side mutex that is safe to hold across yields.
 type Mutex struct{ m sync.Mutex }
 
 // Lock acquires the mutex through the controller.
+//go:norace
 func (m *Mutex) Lock() { Lock("harness.Lock", &m.m) }
 
 // Unlock releases it.
+//go:norace
 func (m *Mutex) Unlock() { Unlock(&m.m) }
 
 // Blocks returns how often the calling worker entered a real blocking operation.
+//go:norace
 func (e *Env) Blocks() int {
 	w := e.s.self()
 	if w == nil {
 		return 0
 	}
-	e.s.mu.Lock()
-	defer e.s.mu.Unlock()
+	ilock(&e.s.mu)
+	defer iunlock(&e.s.mu)
 	return w.blocks
 }
 
 // SetData hands a value to the code that runs after the simulated run (outside the bubble).
+//go:norace
 func (e *Env) SetData(v interface{}) {
-	e.s.mu.Lock()
+	ilock(&e.s.mu)
 	e.s.data = v
-	e.s.mu.Unlock()
+	iunlock(&e.s.mu)
 }
